@@ -40,3 +40,18 @@ Definition F32 : fops f32 :=
      f_quarter := f32_of_bits 1048576000;   (* 0x3e800000 *)
      f_inf := B754_infinity false;
      f_max := f32_of_bits 2139095039        (* 0x7f7fffff *) |}.
+
+(* exact widening binary32 -> binary64 bit pattern (`as f64`) *)
+Definition p52 : Z := 4503599627370496.
+Definition f32_widen_bits (x : f32) : Z :=
+  let sign (s : bool) := if s then 9223372036854775808 else 0 in
+  match x with
+  | B754_nan => 9221120237041090560
+  | B754_zero s => sign s
+  | B754_infinity s => sign s + 2047 * p52
+  | B754_finite s mx ex _ =>
+      (* value = mx * 2^ex with mx < 2^24: always a normal binary64 number *)
+      let nb := Z.log2 (Zpos mx) in                 (* mx in [2^nb, 2^(nb+1)) *)
+      let frac := Z.shiftl (Zpos mx) (52 - nb) - p52 in
+      sign s + (ex + nb + 1023) * p52 + frac
+  end.
